@@ -1282,6 +1282,11 @@ func (ctx *RenderContext) getAttribute(obj interface{}, attr string) (interface{
 	objValue := reflect.ValueOf(obj)
 	origType := objValue.Type()
 
+	// Maps of any other type (map[string]string, map[string]int, ...): the attribute is the key, as for x[attr]
+	if origType.Kind() == reflect.Map {
+		return ctx.getItem(obj, attr)
+	}
+
 	// Handle pointer indirection
 	isPtr := origType.Kind() == reflect.Ptr
 	if isPtr {
